@@ -2,7 +2,10 @@
 package c16
 
 import (
+	"fmt"
+
 	"verifharness/core"
+	"verifharness/doubles"
 )
 
 func init() {
@@ -77,7 +80,10 @@ func run(c *core.Ctx) {
 			runPrec(c, sc, i, (off+k*stride)%total, &ps)
 		}
 	}
-	c.Count("precedence/product-size", 0)
+	c.Count("precedence/command-line-runs", ps.cliRuns)
+	if c.Shard == 0 && c.Only < 0 {
+		probeNilProvider(c)
+	}
 	c.Max("precedence/product-size", int64(total))
 	c.Floor("names/distinct-pairs-and-technology-separation-observed", ns.pairs > 0 && ns.sep > 0)
 	c.Floor("events/emitted-events-parsed-and-led-to-the-variable", evOK > 0)
@@ -88,4 +94,21 @@ func run(c *core.Ctx) {
 	c.Floor("confine/inside-variable-returned", cs.inside > 0)
 	c.Floor("confine/hostile-name-refused", cs.refused > 0)
 	c.Floor("confine/variable-read-through-event-log", cs.viaLog > 0)
+}
+
+// probeNilProvider records (as a note, never a verdict) what the extract command does on a host
+// without a TEE device, where the default backend's provider is nil: the command wraps the nil
+// provider in a non-nil adapter, so an unreadable quote ends in a nil dereference. Outside C16.
+func probeNilProvider(c *core.Ctx) {
+	io := doubles.NewMemIO()
+	io.Files["q.bin"] = []byte{0xc0, 0xde}
+	cli := &doubles.CLI{IO: io, Getter: &recGetter{fail: true}}
+	func() {
+		defer func() {
+			if r := recover(); r != nil {
+				c.Note("observation outside C16: `extract --eventlog= q.bin` with an unreadable quote and a backend whose Provider is nil (non-TEE host) panics: %.120s", fmt.Sprint(r))
+			}
+		}()
+		cli.Run("extract", "--out=o", "--eventlog=", "q.bin")
+	}()
 }
